@@ -157,52 +157,72 @@ def engE2E (s : DState) (a : List String) : DState × String :=
     | _, _, _ => (s, "bad-op")
   | _ => (s, "bad-op")
 
+/-- spec-side judgement of a refused SendSet: C01 quantifies over sets that fit one message, of
+    well-typed values, for a template the exporter has sent; a refusal outside that is `na` -/
+def refusalVerdict (tpls : List (Nat × List IE)) (ty : SetType) (sid : Nat) (rs : List (Nat × List Elem)) : String :=
+  match ty with
+  | .template =>
+    let size := 16 + 4 + (rs.map fun r => (templateRecordBytes r.1 (r.2.map (·.1))).length).sum
+    if size > 65535 then "na" else "fails send-error"
+  | .data =>
+    match tpls.find? (·.1 == sid) with
+    | none => "na"
+    | some (_, ies) =>
+      if rs.any (fun r => r.2.map (·.1) != ies) then "na"
+      else if rs.any (fun r => (encodeRecord r.2).isNone) then "na"
+      else if 16 + 4 + (rs.map fun r => recordLength r.2).sum > 65535 then "na"
+      else "fails send-error"
+  | _ => "na"
+
+abbrev E2ESpecState := Nat × List (Nat × List IE)
+
 /-- `chk e2e <op> | <impl obs>`: C01 stated directly on what was handed to SendSet and what the
     collector delivered: same observation domain, same template fields (id, enterprise, type, length,
     name) in order, same number of records, every value identical (addresses in canonical length) -/
-def chkE2E (dom : Nat) (a : List String) : Nat × String :=
+def chkE2E (st : E2ESpecState) (a : List String) : E2ESpecState × String :=
+  let dom := st.1
   let (op, obs) := splitBar a
   match op with
-  | ["open", _, _, _, d] => ((d.toNat?).getD 0, "holds")
-  | ["close"] => (dom, "na")
-  | ["send", _path, t, _setid, recs] =>
+  | ["open", _, _, _, d] => (((d.toNat?).getD 0, []), "holds")
+  | ["close"] => (st, "na")
+  | ["send", _path, t, setid, recs] =>
     match parseSetType t, parseRecsDesc recs with
     | some ty, some rs =>
       match obs with
-      | ["builderr"] => (dom, "na")
+      | ["builderr"] => (st, "na")
       | "sent" :: _n :: _len :: _time :: _seq :: d :: kind :: rest =>
-        if d.toNat? != some dom then (dom, "fails domain")
+        if d.toNat? != some dom then (st, "fails domain")
         else if kind == "tpl" then
           match rest, rs with
           | [id, ies, tk, ak], [(tid, es)] =>
-            if ty != .template then (dom, "fails kind")
-            else if id.toNat? != some tid then (dom, "fails template-id")
-            else if parseIEs ies != some (es.map (·.1)) then (dom, "fails template-fields")
-            else if tk != "timeok" then (dom, "fails export-time")
-            else if ak != "addrok" then (dom, "fails export-address")
-            else (dom, "holds")
-          | _, _ => (dom, "fails shape")
+            if ty != .template then (st, "fails kind")
+            else if id.toNat? != some tid then (st, "fails template-id")
+            else if parseIEs ies != some (es.map (·.1)) then (st, "fails template-fields")
+            else if tk != "timeok" then (st, "fails export-time")
+            else if ak != "addrok" then (st, "fails export-address")
+            else ((dom, if st.2.any (·.1 == tid) then st.2 else st.2 ++ [(tid, es.map (·.1))]), "holds")
+          | _, _ => (st, "fails shape")
         else if kind == "data" then
           match rest with
           | [vals, tk, ak] =>
-            if ty != .data then (dom, "fails kind")
+            if ty != .data then (st, "fails kind")
             else
               let expected := rs.map fun r => r.2.map fun e => C15.canon e.1 e.2
               match parseRecords vals with
               | some got =>
-                if got.length != expected.length then (dom, "fails record-count")
-                else if got != expected then (dom, "fails values")
-                else if tk != "timeok" then (dom, "fails export-time")
-                else if ak != "addrok" then (dom, "fails export-address")
-                else (dom, "holds")
-              | none => (dom, "fails shape")
-          | _ => (dom, "fails shape")
-        else (dom, "fails shape")
-      | ["sent", _, "none"] => (dom, "fails not-delivered")
-      | ["err"] => (dom, "fails send-error")
-      | _ => (dom, "fails shape")
-    | _, _ => (dom, "bad-op")
-  | _ => (dom, "na")
+                if got.length != expected.length then (st, "fails record-count")
+                else if got != expected then (st, "fails values")
+                else if tk != "timeok" then (st, "fails export-time")
+                else if ak != "addrok" then (st, "fails export-address")
+                else (st, "holds")
+              | none => (st, "fails shape")
+          | _ => (st, "fails shape")
+        else (st, "fails shape")
+      | ["sent", _, "none"] => (st, "fails not-delivered")
+      | ["err"] => (st, refusalVerdict st.2 ty ((setid.toNat?).getD 0) rs)
+      | _ => (st, "fails shape")
+    | _, _ => (st, "bad-op")
+  | _ => (st, "na")
 
 def parseWrites (tok : String) : Option (List Bytes) :=
   if tok == "-" then some [] else (tok.splitOn "+").mapM fromHex
